@@ -48,6 +48,14 @@ Error Builder::on_detach(CodeHolder& code) noexcept {
 Error Builder::finalize() {
   ASMJIT_PROPAGATE(run_passes());
   Assembler a(_code);
+  // The serializing assembler works on behalf of this emitter: its own logger / error handler (which have priority
+  // over the ones attached to CodeHolder) must see what is serialized and what fails.
+  if (has_own_logger()) {
+    a.set_logger(logger());
+  }
+  if (has_own_error_handler()) {
+    a.set_error_handler(error_handler());
+  }
   a.add_encoding_options(encoding_options());
   a.add_diagnostic_options(diagnostic_options());
   return serialize_to(&a);
